@@ -394,7 +394,7 @@ pub fn run_plan(plan: &Plan, keep_log: bool) -> Outcome {
             .stack_size(16 << 20)
             .spawn(move || {
                 hashseed::set_domain(1);
-                let _ident = hooks::enter(h);
+                let _ident = hooks::enter(core.ident(h));
                 let r = catch_unwind(AssertUnwindSafe(|| host_main(&core, &plan, &versions, &shared)));
                 if let Err(p) = r {
                     let m = panic_msg(p);
@@ -614,7 +614,7 @@ fn host_main(core: &Arc<Core>, plan: &Plan, versions: &Arc<Vec<Workspace>>, shar
                         .stack_size(16 << 20)
                         .spawn(move || {
                             hashseed::set_domain(domain);
-                            let _ident = hooks::enter(tid);
+                            let _ident = hooks::enter(core.ident(tid));
                             reader_main(&core, tid, &name, version, snap, &queries, hold, &shared);
                             drop(_ident);
                             core.mark_done(tid);
